@@ -8,12 +8,14 @@ import (
 	"filippo.io/age/xverif/props/c07"
 	"filippo.io/age/xverif/props/c08"
 	"filippo.io/age/xverif/props/c09"
+	"filippo.io/age/xverif/props/c18"
 )
 
 var checks = map[string]func(tier string){
 	"C07": c07.Run,
 	"C08": c08.Run,
 	"C09": c09.Run,
+	"C18": c18.Run,
 }
 
 func main() {
